@@ -281,6 +281,16 @@ class World:
         if kind == "hash":
             limit = target if behind else self.rlen
             nodes_all = self.tree_nodes_below(limit)
+            if behind:
+                # a node whose span straddles the replica's length lies on the path the upgrade itself
+                # recomputes; the protocol cannot serve it as a separate hash section (not a well-formed
+                # request, see DESIGN.md section 11)
+                def span(j):
+                    d = 0
+                    while (j >> d) & 1:
+                        d += 1
+                    return ((j - (1 << d) + 1) // 2, (j + (1 << d) - 1) // 2)
+                nodes_all = [j for j in nodes_all if span(j)[1] < self.rlen or span(j)[0] >= self.rlen]
             if not nodes_all:
                 return None
             j = r.choice(nodes_all)
